@@ -338,6 +338,12 @@ func genPackageOpt(r *vh.Rand, awkward, decorate bool) *gPackage {
 			}
 		}
 		switch s.Kind {
+		case "enum":
+			for _, o := range []string{"ALPHA", "BETA"} {
+				if r.Chance(25) {
+					s.Props = append(s.Props, gProp{Name: o, Desc: vh.Pick(r, []string{"the first one", "second choice", "described option"})})
+				}
+			}
 		case "object":
 			s.Props = g.props(r.Range(1, 5))
 			if r.Chance(35) { // direct self reference
@@ -603,7 +609,21 @@ func (p *gPackage) text() string {
 			}
 			sb.WriteString("}\n\n")
 		case "enum":
-			fmt.Fprintf(&sb, "enum %s {\n%s\toption ALPHA\n\toption BETA\n}\n\n", s.Name, descLines("\t", s.Desc))
+			fmt.Fprintf(&sb, "enum %s {\n%s", s.Name, descLines("\t", s.Desc))
+			// options ALPHA, BETA; s.Props carries a description for some of them (only described options get a
+			// source location in the compiled descriptor: located and unlocated values mixed)
+			descOf := map[string]string{}
+			for _, o := range s.Props {
+				descOf[o.Name] = o.Desc
+			}
+			for _, o := range []string{"ALPHA", "BETA"} {
+				if d := descOf[o]; d != "" {
+					fmt.Fprintf(&sb, "\toption %s | %s\n", o, d)
+				} else {
+					fmt.Fprintf(&sb, "\toption %s\n", o)
+				}
+			}
+			sb.WriteString("}\n\n")
 		}
 	}
 	for _, sv := range p.Services {
